@@ -24,6 +24,7 @@ import (
 
 	"github.com/projecteru2/core/discovery/helium"
 	"github.com/projecteru2/core/store/etcdv3"
+	"github.com/projecteru2/core/store/etcdv3/embedded"
 	coretypes "github.com/projecteru2/core/types"
 
 	"verif/internal/stats"
@@ -41,9 +42,13 @@ const (
 
 	opReg   = "reg"
 	opDereg = "dereg"
-	opSub   = "sub"
-	opUnsub = "unsub"
-	opStall = "stall" // the subscriber stops reading (it stays subscribed, its context stays live)
+	// opRegTxn: two registration events reach the watcher in ONE watch response — a new address
+	// and a re-announcement of an address that is registered already (what a slow watcher sees when
+	// several core instances (re-)register within one batch), written in one etcd transaction
+	opRegTxn = "regtxn"
+	opSub    = "sub"
+	opUnsub  = "unsub"
+	opStall  = "stall" // the subscriber stops reading (it stays subscribed, its context stays live)
 
 	modeFast = "fast"
 	modeSlow = "slow"
@@ -147,6 +152,9 @@ func genDCase(t *rapid.T) DCase {
 		switch {
 		case k < 25 && len(unreg) > 0:
 			st.Op, st.Addr = opReg, rapid.SampledFrom(unreg).Draw(t, "addr")
+			if vt.Chance(t, "regTxn", 25) {
+				st.Op = opRegTxn
+			}
 			registered[st.Addr] = true
 		case k < 45 && len(reg) > 0:
 			st.Op, st.Addr = opDereg, rapid.SampledFrom(reg).Draw(t, "addr")
@@ -172,6 +180,21 @@ func genDCase(t *rapid.T) DCase {
 			}
 		}
 		c.Steps = append(c.Steps, st)
+	}
+	// sometimes the LAST change is a batched registration (new address + re-announcement in one watch
+	// response): nothing later re-publishes the set, so the subscribers must have got it from this one
+	{
+		var unreg []int
+		for i := 0; i < nAddr; i++ {
+			if !registered[i] {
+				unreg = append(unreg, i)
+			}
+		}
+		if len(unreg) > 0 && len(unreg) < nAddr && vt.Chance(t, "finalRegTxn", 30) {
+			a := rapid.SampledFrom(unreg).Draw(t, "addr")
+			c.Steps = append(c.Steps, DStep{WaitMs: rapid.SampledFrom(waits).Draw(t, "waitMs"), Op: opRegTxn, Addr: a})
+			registered[a] = true
+		}
 	}
 	// subscribers that never came up subscribe now (late joiners: they must be served by the periodic push)
 	for _, i := range live(unborn) {
@@ -374,6 +397,27 @@ func attemptDCase(x *vt.Ctx, c DCase, label bool) dFinding {
 				continue
 			}
 			register(stp.Addr)
+			if liveCount() >= 2 {
+				changesWhileSubscribed++
+			}
+		case opRegTxn:
+			if registered[stp.Addr] {
+				continue
+			}
+			raw := embedded.NewCluster(theT, "/verif-c27").RandClient()
+			key := "/services/" + c.Addrs[stp.Addr]
+			ops := []clientv3.Op{clientv3.OpPut(key, "")}
+			for j := range c.Addrs { // re-announce one address that is registered already, as the LAST event
+				if registered[j] && j != stp.Addr {
+					ops = append(ops, clientv3.OpPut("/services/"+c.Addrs[j], "", clientv3.WithIgnoreLease()))
+					break
+				}
+			}
+			if _, err := raw.Txn(ctx).Then(ops...).Commit(); err != nil {
+				panic(fmt.Sprintf("harness: registration txn: %v", err))
+			}
+			registered[stp.Addr] = true
+			dereg[stp.Addr] = func() { _, _ = raw.Delete(context.Background(), key) }
 			if liveCount() >= 2 {
 				changesWhileSubscribed++
 			}
